@@ -26,10 +26,15 @@ def oracle_req(case, reply):
     return f"scan-check {w[4]} {w[5]} {reply.replace(' ', '_')}"
 
 
+EMPTY_ALT = ",".join(str(ord(c)) for c in "(|")
+
+
 def attribute(case, reply, why):
     w = case.split()
     if w[0] == "scan" and why.startswith("fail") and "1114111" in w[5].split(","):
         return "F21"
+    if w[0] == "scan" and why.startswith("fail") and EMPTY_ALT in w[3]:
+        return "F22"     # scnr2 drops an empty first alternative
     return None
 
 
@@ -80,7 +85,7 @@ SPEC = {
     "rule": "random PAR grammars: 1..3 scanner states, 2..7 terminals (raw / regex / legacy literals from a pool of 25 raw strings and 30 regexes "
             "covering classes, negated classes, Unicode classes, star/plus/opt, bounded repetition, alternation with common prefixes, nullable "
             "regexes, `.`), 1/6 with positive or negative lookahead, random %line_comment/%block_comment/%auto_newline_off/%auto_ws_off/"
-            "%allow_unmatched/%skip/%on..%enter|%push|%pop per state; per grammar 14 (quick) / 30 (thorough) texts rendered from terminal samples, "
+            "%allow_unmatched/%skip/%on..%enter|%push|%pop per state; per grammar 14 (quick) / 40 (thorough) texts; 150 / 2500 grammars rendered from terminal samples, "
             "whitespace incl. CR/LF/CRLF/NBSP/U+2028/VT, comment snippets incl. unterminated ones, junk and non-ASCII characters; k cycles 1..4, "
             "peek schedule alternates, every 5th text repeated with another (k, schedule); non-trivial = scan case with non-empty text; "
             "distinct = distinct request lines",
@@ -96,15 +101,19 @@ CLAIM = {
     "category": "proof",
     "text": "The documented tokenisation rule is the Lean function tokenizeSpec (longest match in the current scanner state, first declared on ties, "
             "lookahead tested at the end of the match, never-empty matches, one character skipped when nothing matches, enter/push/pop at match time, "
-            "pop on an empty stack keeps the state). Proved for ALL scanner descriptions and inputs: tokenize_total/tokenize_progress (every token is "
-            "non-empty, tokens are ordered and inside the text, the tokenizer never runs out of fuel), step_longest_first (the chosen terminal is a "
-            "longest one and the first declared among the longest), pop_empty_keeps, mode_order_is_documented (order of generate_build_information), "
-            "and for the model of TokenStream's read-ahead stream_indep_of_k. Tied to the code by exact differential runs of the real "
+            "pop on an empty stack keeps the state). Proved for ALL scanner descriptions and inputs: matchesRe_iff (the derivative matcher decides the "
+            "declarative regular-language semantics), term_match_is_longest / term_no_match (a terminal's match is the greatest non-empty prefix in its "
+            "language whose lookahead condition holds), step_longest_first (the chosen terminal is a longest one and the first declared among the "
+            "longest), tokenize_total / tokenize_progress (every token is non-empty, tokens are ordered and inside the text, the tokenizer never runs "
+            "out of fuel), pop_empty_keeps / push_pop, mode_order_is_documented / error_token_last_iff (order of generate_build_information), and for "
+            "the model of TokenStream's read-ahead (read_tokens, ensure_buffer, take_skip_tokens, consume, EOI padding) stream_indep_of_k / "
+            "stream_indep_of_consumption: for every k and both access schedules exactly the matches with gaps filled plus one EOI are delivered. Tied to the code by exact differential runs of the real "
             "parol front end + generate_build_information + scnr2 (tables built at run time) + TokenStream against the model for k = 1..4 and two "
             "access schedules; every implementation reply is also judged against the k-independent reference sequence.",
     "design_ref": "DESIGN.md §6 C13",
-    "note": "scnr2 is an external crate: its agreement with the documented rule is observed on the explored cases, not proved. Known finding F21 "
-            "(scnr2 never matches U+10FFFF) is reproduced on dedicated cases.",
+    "note": "scnr2 is an external crate: its agreement with the documented rule is observed on the explored cases, not proved. Known findings F21 "
+            "(scnr2 never matches U+10FFFF) and F22 (scnr2 drops an empty first alternative) are reproduced on dedicated cases; the faithful scanner "
+            "model contains both quirks (scnr2Text, scnr2Re), the specification does not.",
     "technique": "Lean 4 proof over hand-written model + differential correspondence check",
 }
 
